@@ -31,6 +31,12 @@ def Fault.describe : Fault → String
   | .indexOutOfRange s => "indexOutOfRange " ++ s
   | .divByZero s => "divByZero " ++ s
 
+instance {ε α : Type} [DecidableEq ε] [DecidableEq α] : DecidableEq (Except ε α)
+  | .ok a, .ok b => if h : a = b then isTrue (by rw [h]) else isFalse (by intro h'; cases h'; exact h rfl)
+  | .error a, .error b => if h : a = b then isTrue (by rw [h]) else isFalse (by intro h'; cases h'; exact h rfl)
+  | .ok _, .error _ => isFalse (by intro h; cases h)
+  | .error _, .ok _ => isFalse (by intro h; cases h)
+
 /-- representable in a 32-bit `int` -/
 def fitsInt32 (v : Int) : Prop := -2147483648 ≤ v ∧ v ≤ 2147483647
 /-- representable in a 64-bit `long long` -/
